@@ -75,6 +75,10 @@ func (m *model) dups() map[string]bool {
 	return d
 }
 
+func (m *model) knownAlphabet() bool {
+	return m.alphabet == align.NUCLEOTIDS || m.alphabet == align.AMINOACIDS
+}
+
 func (m *model) collided() bool { return len(m.dups()) > 0 }
 
 func (m *model) names() []string {
@@ -406,4 +410,117 @@ func sortedRows(rows []row) []row {
 	out := append([]row(nil), rows...)
 	sort.SliceStable(out, func(i, j int) bool { return out[i].Name < out[j].Name })
 	return out
+}
+
+// ---- alphabet of the content ------------------------------------------------------------------
+//
+// DetectAlphabet doc: "Detects the alphabets compatible with the alignment: BOTH, NUCLEOTIDS,
+// AMINOACIDS or UNKNOWN"; AutoAlphabet "detects and sets alphabet automatically for all the
+// sequences" (BOTH is resolved to nucleotides, docs/commands/stats.md example). An alphabet is
+// compatible with a set when EVERY residue of EVERY row belongs to it, so the answer is a function of
+// the set of residues only: not of the row order, the column order or the case. Which characters
+// belong to which alphabet is taken from the IUPAC-IUB nomenclature; characters on which the
+// nomenclature and goalign's convention may differ are left open (every reading accepted).
+
+type tri int
+
+const (
+	triNo tri = iota
+	triYes
+	triOpen
+)
+
+// residueClass: membership of one residue (case-insensitive) in the nucleotide and in the amino
+// acid alphabet
+func residueClass(c byte) (nt, aa tri) {
+	if c >= 'a' && c <= 'z' {
+		c -= 32
+	}
+	switch {
+	case c == '-':
+		return triYes, triYes // a gap is a gap in both
+	case c == '.' || c == '?':
+		return triOpen, triOpen // match / missing characters of some formats
+	case c == '*':
+		return triOpen, triYes // translation stop
+	case strings.IndexByte("ACGT", c) >= 0:
+		return triYes, triYes
+	case strings.IndexByte("RYSWKMDHVN", c) >= 0:
+		return triYes, triYes // IUPAC nucleotide codes that are also among the 20 amino acids
+	case c == 'B':
+		return triYes, triYes // not A / Asx
+	case c == 'U':
+		return triYes, triOpen // uracil; selenocysteine in recent amino acid tables only
+	case strings.IndexByte("EFILPQ", c) >= 0:
+		return triNo, triYes // amino acids that are no nucleotide code
+	case c == 'Z':
+		return triNo, triYes // Glx
+	case c == 'X':
+		return triOpen, triYes // any amino acid; used as a masked nucleotide by some tools
+	case c == 'O' || c == 'J':
+		return triOpen, triOpen // pyrrolysine, Leu/Ile: recent tables only
+	}
+	return triNo, triNo // digits, punctuation, other bytes
+}
+
+// alphabetReadings returns every (isnt, isaa) pair the content admits
+func alphabetReadings(rows []row) (nts, aas []bool) {
+	nt, aa := triYes, triYes
+	for _, r := range rows {
+		for i := 0; i < len(r.Seq); i++ {
+			n, a := residueClass(r.Seq[i])
+			if n == triNo || nt == triNo {
+				nt = triNo
+			} else if n == triOpen {
+				nt = triOpen
+			}
+			if a == triNo || aa == triNo {
+				aa = triNo
+			} else if a == triOpen {
+				aa = triOpen
+			}
+		}
+	}
+	exp := func(t tri) []bool {
+		switch t {
+		case triNo:
+			return []bool{false}
+		case triYes:
+			return []bool{true}
+		}
+		return []bool{true, false}
+	}
+	return exp(nt), exp(aa)
+}
+
+func detectCode(isnt, isaa bool) int {
+	switch {
+	case isnt && isaa:
+		return align.BOTH
+	case isnt:
+		return align.NUCLEOTIDS
+	case isaa:
+		return align.AMINOACIDS
+	}
+	return align.UNKNOWN
+}
+
+// acceptableDetect lists the values DetectAlphabet may return for the content
+func acceptableDetect(rows []row) map[int]bool {
+	out := map[int]bool{}
+	nts, aas := alphabetReadings(rows)
+	for _, n := range nts {
+		for _, a := range aas {
+			out[detectCode(n, a)] = true
+		}
+	}
+	return out
+}
+
+// autoOf: the alphabet AutoAlphabet sets for a detected value
+func autoOf(detected int) int {
+	if detected == align.BOTH {
+		return align.NUCLEOTIDS
+	}
+	return detected
 }
